@@ -657,6 +657,8 @@ BOUNDARIES = [
     ("list_one_int_first/last, list_one_nan_last, list_one_inf_first", "exactly one offending element, first vs last"),
     ("strlist_empty_first", "string lists whose first list is empty"),
     # dates
+    ("datex_dayfirst_ambiguous_first / unambiguous_first, datex_mixed_iso_separators",
+     "the KNOWN FINDING witnesses (day-first dates in two orders, mixed ISO separators): printed under every seed"),
     ("date_single, date_const_5, date_datetime", "one date; a date repeated thresh+1 times (timestamp wins); date+time"),
     # missing cells, permutations, labels
     ("missing_first, missing_last, missing_majority", "missing cells only first / only last / more missing than present"),
@@ -685,7 +687,7 @@ def _bcase(name, fam, cells, rng, sd=None, missing=True):
         vs += [{"perm": ident, "add": [[0, k]], "labels": {"t": "default"}},
                {"perm": ident, "add": [[n, k]], "labels": {"t": "default"}},
                {"perm": ident, "add": [[0, k]] * (n + 1), "labels": {"t": "default"}}]
-    if fam in STR_FAMS and sd is None:
+    if fam in STR_FAMS + ("datex",) and sd is None:
         sd = rng.pick(["object", "str", "string"])
     return {"kind": "series", "family": fam, "sdtype": sd, "cells": [list(c) for c in cells], "variants": vs,
             "boundary": name,
@@ -771,6 +773,11 @@ def gen_boundary_cases(rng):
     add("date_single", "date", [["d", "1999/12/31"]])
     add("date_const_5", "date", [["d", "2020-01-02"]] * 5)
     add("date_datetime", "date", [["d", "2020-01-02 03:04:05"], ["d", "1999-12-31 23:59:59"]])
+    # the known finding (date formats pandas must guess), deterministically in every run
+    D = lambda x: ["d", x]
+    add("datex_dayfirst_ambiguous_first", "datex", [D("01/02/2020"), D("05/03/2020"), D("13/02/2020"), D("25/12/2020")])
+    add("datex_dayfirst_unambiguous_first", "datex", [D("25/12/2020"), D("13/02/2020"), D("05/03/2020"), D("01/02/2020")])
+    add("datex_mixed_iso_separators", "datex", [D("2020-01-02"), D("2020/01/03")])
     # frames
     def col(name, fam, cells, sd=None):
         return {"name": name, "family": fam, "sdtype": sd, "cells": cells}
@@ -794,24 +801,39 @@ def gen_boundary_cases(rng):
 BOUNDARY_NAMES = sorted({c["boundary"] for c in gen_boundary_cases(C.Rng(0))})
 
 
-def generate(rng, tier):
-    n = 900 if tier == "quick" else 16000
+REQUIRED_SEED = 18001800
+
+
+def deterministic_prefix():
+    """Everything sanity() requires, WITHOUT the run's seed (own constant seed, the same in both tiers):
+    hand-written boundaries, every family and every numeric backing, frames with blank rows, and a fixed stream
+    wide enough to draw every representation / labeling / variant kind / missing kind sanity() asks for."""
+    rng = C.Rng(REQUIRED_SEED)
     cases = gen_boundary_cases(rng)
-    for fam in FAMILIES:                       # every family is present in every run
-        cases += [gen_series_case(rng, tier, fam) for _ in range(4)]
-    cases += [gen_series_case(rng, tier, "datex") for _ in range(4)]
+    for fam in FAMILIES:
+        cases += [gen_series_case(rng, "quick", fam) for _ in range(5)]
+    cases += [gen_series_case(rng, "quick", "datex") for _ in range(4)]
     for fam, b in (("int", "Int64"), ("int", "int32"), ("int", "int8"), ("int", "uint8"), ("float", "Float64"),
-                   ("float", "float32"), ("bool", "boolean")):      # every backing is present in every run
+                   ("float", "float32"), ("bool", "boolean")):
         got = 0
-        for _try in range(400):
-            c = gen_series_case(rng, tier, fam)
+        for _try in range(2000):
+            c = gen_series_case(rng, "quick", fam)
             if c["rep"]["backing"] == b:
                 cases.append(c)
                 got += 1
-                if got == 3:
+                if got == 2:
                     break
-    cases += [gen_df_blank_case(rng, tier) for _ in range(12)]      # always present
-    for _ in range(n):
+    cases += [gen_df_blank_case(rng, "quick") for _ in range(40)]
+    cases += [gen_df_case(rng, "quick") for _ in range(15)]
+    for c in cases:
+        c["det"] = True
+    return cases
+
+
+def generate(rng, tier):
+    n = 850 if tier == "quick" else 16000
+    cases = deterministic_prefix()
+    for _ in range(n):                           # the run's seed drives only this additional random stream
         r = rng.random()
         cases.append(gen_df_case(rng, tier) if r < 0.1 else gen_df_blank_case(rng, tier) if r < 0.2
                      else gen_series_case(rng, tier))
@@ -1294,8 +1316,16 @@ def stats(cases, obss):
 def sanity(cases, obss):
     """Fail-closed distribution check: a run that does not cover the decision table, both sides of the
     threshold, the variant kinds and the frame-level cases must not report green."""
-    d = stats(cases, obss)
+    # every coverage requirement is evaluated over the DETERMINISTIC prefix alone (cases flagged det), so it cannot
+    # depend on the run's seed; the ratio checks at the end look at the whole run
+    det = [(c, o) for c, o in zip(cases, obss) if c is not None and c.get("det")]
+    d_all = stats(cases, obss)
+    d = stats([c for c, _ in det], [o for _, o in det])
     probs = []
+    if d_all["total"] - d["total"] <= 0:
+        probs.append("no random stream besides the deterministic prefix")
+    if d.get("guessed_date_columns_order_dependent", 0) == 0:
+        probs.append("the known date finding is not exercised by the deterministic prefix")
     for b in BOUNDARY_NAMES:
         if d.get("boundaries", {}).get(b, 0) == 0:
             probs.append(f"boundary {b} not hit")
@@ -1337,6 +1367,7 @@ def sanity(cases, obss):
         probs.append("no bool / int column with a missing cell")
     if d["df_cases"] == 0 or d.get("df_single_column_blank", 0) == 0 or d["df_skipped_columns"] == 0:
         probs.append("frame-level cases degenerate (none / no single-column blank-row frame / no skipped column)")
+    d = d_all
     if d["raised"] > 0.05 * max(1, d["total"]):
         probs.append(f"{d['raised']} of {d['total']} columns make inference raise")
     series = max(1, d["total"] - d["df_cases"])
@@ -1348,7 +1379,7 @@ def sanity(cases, obss):
 def extra(tier, rng):
     """Sanity of the generator itself: every family and both sides of the threshold must be drawn."""
     fails = []
-    sub = C.Rng(rng.randrange(1 << 30))
+    sub = C.Rng(REQUIRED_SEED + 7)               # a property of the generator, not of the run: own constant seed
     cases = [gen_series_case(sub, tier, fam=sub.wpick(FAM_WEIGHTS)) for i in range(400)]
     fams = {c["family"] for c in cases}
     res = collections.Counter(str(ref_infer(c["cells"])) for c in cases)
